@@ -145,7 +145,7 @@ def run(model: RepoModel, rep, tier: str):
         for c, tag, lst, line in pv.parse_calls:
             if len(c.args) >= 2 or any(k.arg == "statements" for k in c.keywords):
                 continue
-            key = f"{PY}::{f.qualname}::self.parse({norm(c.args[0])}) without a statement list"
+            key = f"{PY}::{f.qualname}::`self.parse({norm(c.args[0])})` without a statement list"
             provable_leaf = tag.startswith("type:identifier") or tag in ("field:name",) and False
             if provable_leaf:
                 rep.holds("C01.R1", key, PY, line, f"the node is an identifier ({tag}): lowering it emits nothing")
@@ -347,8 +347,12 @@ def run(model: RepoModel, rep, tier: str):
     src = ast.get_source_segment(m.source, ce.node) or ""
     loops = [n for n in walk_no_nested(ce.node) if isinstance(n, ast.For) and ("named_children" in norm(n.iter) or "children" in norm(n.iter))]
     rev = [n for n in loops if isinstance(n.iter, ast.Call) and call_name(n.iter) in ("reversed", "sorted")]
-    appends_pos = any(isinstance(n, ast.Call) and isinstance(n.func, ast.Attribute) and n.func.attr == "append" and "positional" in norm(n.func.value)
-                      for n in walk_no_nested(ce.node))
+    # the list by role: whatever is emitted under the key "positional_args"
+    pos_lists = {v.id for n in walk_no_nested(ce.node) if isinstance(n, ast.Dict)
+                 for k, v in zip(n.keys, n.values) if k is not None and const_str(k) == "positional_args" and isinstance(v, ast.Name)}
+    appends_pos = any(isinstance(n, ast.Call) and isinstance(n.func, ast.Attribute) and n.func.attr == "append"
+                      and isinstance(n.func.value, ast.Name) and n.func.value.id in pos_lists
+                      for lp in loops for n in ast.walk(lp))
     if loops and not rev and appends_pos:
         rep.holds("C01.R4", key, PY, ce.node.lineno, f"{len(loops)} loop(s) over the argument children in order; positional arguments appended")
     else:
@@ -473,52 +477,110 @@ def check_self_unification(model: RepoModel, rep, P: ClassInfo, handlers: List[s
 
 
 def check_tmp_elimination(model: RepoModel, rep, RID: str):
-    """shared by C01 (R6) and C02 (R5): the temporary-eliminating normaliser that runs on python/javascript/php GIR."""
+    """shared by C01 (R6) and C02 (R5): the temporary-eliminating normaliser that runs on python/javascript/php GIR.
+    Variables are identified by role (what they are computed from), not by name."""
     am = model.module(AVD)
     rt_ = am.functions.get("remove_unnecessary_tmp_variables_in_list")
     if rt_ is None:
         raise AnalysisError("remove_unnecessary_tmp_variables_in_list vanished")
-    guards = [n for n in walk_no_nested(rt_.node) if isinstance(n, ast.If) and any(isinstance(b, ast.Continue) for b in n.body)]
+    fn = rt_.node
+    P0 = rt_.params[0] if rt_.params else None
+
+    def info_pair(loop):
+        """(index var, op var, content var) for `op, content = extract_stmt_info(P0[idx])` directly inside ``loop``"""
+        idx = loop.target.id if isinstance(loop.target, ast.Name) else None
+        for st in loop.body:
+            if isinstance(st, ast.Assign) and isinstance(st.targets[0], ast.Tuple) and len(st.targets[0].elts) == 2 \
+                    and all(isinstance(e, ast.Name) for e in st.targets[0].elts) and isinstance(st.value, ast.Call) and st.value.args \
+                    and isinstance(st.value.args[0], ast.Subscript) and isinstance(st.value.args[0].value, ast.Name) \
+                    and st.value.args[0].value.id == P0 and isinstance(st.value.args[0].slice, ast.Name) and st.value.args[0].slice.id == idx:
+                return idx, st.targets[0].elts[0].id, st.targets[0].elts[1].id
+        return idx, None, None
+
+    outer = next((n for n in fn.body if isinstance(n, ast.For) and isinstance(n.iter, ast.Call) and call_name(n.iter) == "range"), None)
+    if outer is None:
+        raise AnalysisError("remove_unnecessary_tmp_variables_in_list: backward loop over the statement list not found")
+    I, CO, CC = info_pair(outer)
+    inner = next((n for n in outer.body if isinstance(n, ast.For) and isinstance(n.iter, ast.Call) and call_name(n.iter) == "range"), None)
+    K, PO, PC = info_pair(inner) if inner is not None else (None, None, None)
+
+    def got(content: Optional[str], field: str) -> Set[str]:
+        """locals assigned `content.get(field)`"""
+        out = set()
+        for n in ast.walk(outer):
+            if isinstance(n, ast.Assign) and isinstance(n.targets[0], ast.Name) and _is_get(n.value, content, field):
+                out.add(n.targets[0].id)
+        return out
+
+    def _is_get(e, content, field) -> bool:
+        return isinstance(e, ast.Call) and isinstance(e.func, ast.Attribute) and e.func.attr == "get" and isinstance(e.func.value, ast.Name) \
+            and e.func.value.id == content and e.args and const_str(e.args[0]) == field or \
+            isinstance(e, ast.Subscript) and isinstance(e.value, ast.Name) and e.value.id == content and const_str(e.slice) == field
+
+    guards = [n for n in outer.body if isinstance(n, ast.If) and any(isinstance(b, ast.Continue) for b in n.body)]
     first = guards[0] if guards else None
-    txt = norm(first.test) if first is not None else ""
-    for what, needle, why in (
-            ("is an assign_stmt", "!= 'assign_stmt'", "another kind of statement is deleted as if it were a copy"),
-            ("has no second operand", "get('operand2')", "`d = %v op x` is deleted as if it were `d = %v`"),
-            ("has no operator", "get('operator')", "a unary statement `d = -%v` / `d = not %v` is treated as the copy `d = %v`: the operator is lost")):
+    t_nodes = list(ast.walk(first.test)) if first is not None else []
+    checks = (
+        ("is an assign_stmt", any(isinstance(x, ast.Compare) and isinstance(x.ops[0], ast.NotEq) and isinstance(x.left, ast.Name) and x.left.id == CO
+                                  and const_str(x.comparators[0]) == "assign_stmt" for x in t_nodes),
+         "another kind of statement is deleted as if it were a copy"),
+        ("has no second operand", any(_is_get(x, CC, "operand2") for x in t_nodes), "`d = %v op x` is deleted as if it were `d = %v`"),
+        ("has no operator", any(_is_get(x, CC, "operator") for x in t_nodes),
+         "a unary statement `d = -%v` / `d = not %v` is treated as the copy `d = %v`: the operator is lost"))
+    for what, ok, why in checks:
         key = f"{AVD}::remove_unnecessary_tmp_variables_in_list::the merged statement {what}"
-        if needle in txt:
-            rep.holds(RID, key, AVD, first.lineno, f"`{needle}` is a disjunct of the skip test")
+        if CO is None or CC is None:
+            rep.unknown(RID, key, AVD, outer.lineno, "current statement's (operation, content) pair not recognised")
+        elif ok:
+            rep.holds(RID, key, AVD, first.lineno, "tested by the skip condition")
         else:
-            rep.violation(RID, key, AVD, first.lineno if first is not None else rt_.node.lineno,
+            rep.violation(RID, key, AVD, first.lineno if first is not None else fn.lineno,
                           f"temporary elimination no longer checks that the statement it removes {what}: {why}")
+    TV = got(CC, "operand")
+    FT = got(CC, "target")
     key = f"{AVD}::remove_unnecessary_tmp_variables_in_list::the copied name is a compiler temporary"
-    ok = any("startswith(LIAN_INTERNAL.VARIABLE_DECL_PREF)" in norm(g.test) for g in guards)
-    (rep.holds if ok else rep.violation)(RID, key, AVD, rt_.node.lineno,
+    ok = any(isinstance(x, ast.Call) and isinstance(x.func, ast.Attribute) and x.func.attr == "startswith" and isinstance(x.func.value, ast.Name)
+             and x.func.value.id in TV and x.args and (dotted(x.args[0]) or "").endswith("VARIABLE_DECL_PREF")
+             for g in guards for x in ast.walk(g.test))
+    (rep.holds if ok else rep.violation)(RID, key, AVD, fn.lineno,
                                          "operand.startswith(VARIABLE_DECL_PREF) required" if ok else "user variables are merged away like temporaries")
     key = f"{AVD}::remove_unnecessary_tmp_variables_in_list::the defining statement matches and exactly the copy is deleted"
-    merges = [n for n in walk_no_nested(rt_.node) if isinstance(n, ast.If) and any(isinstance(b, ast.Delete) for b in n.body)]
     probs = []
+    if inner is None or PO is None or PC is None:
+        rep.unknown(RID, key, AVD, outer.lineno, "backward search for the defining statement not recognised")
+        return
+    PT = set()
+    for n in ast.walk(inner):
+        if isinstance(n, ast.Assign) and isinstance(n.targets[0], ast.Name) and _is_get(n.value, PC, "target"):
+            PT.add(n.targets[0].id)
+    merges = [n for n in ast.walk(inner) if isinstance(n, ast.If) and any(isinstance(b, ast.Delete) for b in n.body)]
     if not merges:
         probs.append("no merge site")
     else:
-        mt = norm(merges[0].test)
-        if "prev_target == temp_var" not in mt:
+        mt = list(ast.walk(merges[0].test))
+        same = any(isinstance(x, ast.Compare) and isinstance(x.ops[0], ast.Eq)
+                   and {getattr(x.left, "id", None), getattr(x.comparators[0], "id", None)} & PT
+                   and {getattr(x.left, "id", None), getattr(x.comparators[0], "id", None)} & TV for x in mt) or \
+            any(isinstance(x, ast.Compare) and isinstance(x.ops[0], ast.Eq) and (_is_get(x.left, PC, "target") or _is_get(x.comparators[0], PC, "target"))
+                and {getattr(x.left, "id", None), getattr(x.comparators[0], "id", None)} & TV for x in mt)
+        if not same:
             probs.append("the previous statement's target is not compared with the temporary")
-        if " in CAN_OPTIMIZE_OPS" not in mt:
+        if not any(isinstance(x, ast.Compare) and isinstance(x.ops[0], ast.In) and isinstance(x.left, ast.Name) and x.left.id == PO for x in mt):
             probs.append("the previous statement's kind is not checked against the allow-list")
         dl = [b for b in merges[0].body if isinstance(b, ast.Delete)][0]
-        if norm(dl) != "del stmts[i]":
+        t0 = dl.targets[0]
+        if not (len(dl.targets) == 1 and isinstance(t0, ast.Subscript) and isinstance(t0.value, ast.Name) and t0.value.id == P0
+                and isinstance(t0.slice, ast.Name) and t0.slice.id == I):
             probs.append(f"`{norm(dl)}` deletes something other than the copy statement")
-        if not any(isinstance(b, ast.Assign) and norm(b.targets[0]) == "prev_content['target']" and norm(b.value) == "final_target" for b in merges[0].body):
+        if not any(isinstance(b, ast.Assign) and isinstance(b.targets[0], ast.Subscript) and isinstance(b.targets[0].value, ast.Name)
+                   and b.targets[0].value.id == PC and const_str(b.targets[0].slice) == "target"
+                   and (isinstance(b.value, ast.Name) and b.value.id in FT or _is_get(b.value, CC, "target")) for b in merges[0].body):
             probs.append("the defining statement's target is not redirected to the copy's target")
-    loop_k = [n for n in walk_no_nested(rt_.node) if isinstance(n, ast.For) and isinstance(n.target, ast.Name) and n.target.id == "k"]
-    if loop_k and not isinstance(loop_k[0].body[-1], ast.Break):
+    if not isinstance(inner.body[-1], ast.Break):
         probs.append("the backward search does not stop at the first statement that is neither a declaration nor the definition: it merges across intervening statements")
-    (rep.violation if probs else rep.holds)(RID, key, AVD, rt_.node.lineno,
+    (rep.violation if probs else rep.holds)(RID, key, AVD, fn.lineno,
                                             ("remove_unnecessary_tmp_variables_in_list: " + "; ".join(probs)) if probs else
-                                            "prev target == temporary, kind allow-listed, target redirected, `del stmts[i]`, search stops at the first other statement")
-
-
+                                            "prev target == temporary, kind allow-listed, target redirected, the copy deleted, search stops at the first other statement")
 
 
 # ---------------------------------------------------------------- self-test mutants
